@@ -445,5 +445,103 @@ def make (max off : Nat) (fill : List Byte) : Ring :=
   let s2 := Mem.write s1 0 (fill.drop up)
   { store := s2, len := fill.length, off := off }
 
+/-! ### C++ `io::queue` (mpt++/io_queue.cpp): thin wrappers that grow the storage on demand -/
+
+/-- `io::queue::push(data, len)`: `mpt_queue_prepare` (result ignored) then `mpt_qpush >= 0` -/
+def xpush (r : Ring) (bytes : List Byte) : Res (Ring × Bool) :=
+  match r.prepare bytes.length with
+  | .ok (r1, _) =>
+    match r1.qpush bytes.length (some bytes) with
+    | .ok (r2, _) => .ok (r2, true)
+    | .err _ => .ok (r1, false)
+    | .null => .null | .oob => .oob | .fault => .fault
+  | .err e => .err e | .null => .null | .oob => .oob | .fault => .fault
+
+/-- `io::queue::unshift(data, len)` -/
+def xunshift (r : Ring) (bytes : List Byte) : Res (Ring × Bool) :=
+  match r.prepare bytes.length with
+  | .ok (r1, _) =>
+    match r1.qunshift bytes.length (some bytes) with
+    | .ok (r2, _) => .ok (r2, true)
+    | .err _ => .ok (r1, false)
+    | .null => .null | .oob => .oob | .fault => .fault
+  | .err e => .err e | .null => .null | .oob => .oob | .fault => .fault
+
+/-- `io::queue::pop(data, len)`: with a target `mpt_qpop`, without one `mpt_queue_crop(len_ - len, len)` -/
+def xpop (r : Ring) (n : Nat) (dst : Bool) : Res (Ring × Bool × List Byte) :=
+  if dst then
+    match r.qpop n true with
+    -- the wrapper converts the returned pointer to bool: a queue without storage yields NULL
+    | .ok (r1, out) => .ok (r1, r.max ≠ 0, out)
+    | .null => .ok (r, false, [])
+    | .err _ => .ok (r, false, []) | .oob => .oob | .fault => .fault
+  else if r.len < n then .ok (r, false, [])   -- size_t underflow of the position: refused by crop
+  else
+    match r.crop (r.len - n) n with
+    | .ok (r1, _) => .ok (r1, true, [])
+    | .err _ => .ok (r, false, [])
+    | .null => .null | .oob => .oob | .fault => .fault
+
+/-- `io::queue::shift(data, len)` -/
+def xshift (r : Ring) (n : Nat) (dst : Bool) : Res (Ring × Bool × List Byte) :=
+  if dst then
+    match r.qshift n true with
+    | .ok (r1, out) => .ok (r1, r.max ≠ 0, out)
+    | .null => .ok (r, false, [])
+    | .err _ => .ok (r, false, []) | .oob => .oob | .fault => .fault
+  else
+    match r.crop 0 n with
+    | .ok (r1, _) => .ok (r1, true, [])
+    | .err _ => .ok (r, false, [])
+    | .null => .null | .oob => .oob | .fault => .fault
+
+/-- the element loop of `io::queue::write`: push `part` bytes per element, stop at the first refusal -/
+def xwriteLoop (r : Ring) (part : Nat) : List (List Byte) → Nat → Res (Ring × Nat)
+  | [], done => .ok (r, done)
+  | e :: es, done =>
+    match r.qpush part (some e) with
+    | .ok (r1, _) => xwriteLoop r1 part es (done + 1)
+    | .err _ => .ok (r, done)
+    | .null => .null | .oob => .oob | .fault => .fault
+
+/-- `io::queue::write(len, data, part)` with `part ≠ 0`; `elems` are the `len` elements of `part` bytes -/
+def xwrite (r : Ring) (part : Nat) (elems : List (List Byte)) : Res (Ring × Nat) :=
+  -- prepare(part*len), on failure prepare(part): allocation never fails in the model
+  match r.prepare (part * elems.length) with
+  | .ok (r1, _) => xwriteLoop r1 part elems 0
+  | .err e => .err e | .null => .null | .oob => .oob | .fault => .fault
+
+/-- `io::queue::read(len, data, part)`: `len` times `mpt_qpop(part)` (last element first) -/
+def xread (r : Ring) (part : Nat) : Nat → Res (Ring × List (List Byte))
+  | 0 => .ok (r, [])
+  | k + 1 =>
+    match r.qpop part true with
+    | .ok (r1, out) =>
+      match xread r1 part k with
+      | .ok (r2, outs) => .ok (r2, out :: outs)
+      | x => x
+    | .null => .ok (r, [])
+    | .err _ => .ok (r, []) | .oob => .oob | .fault => .fault
+
+/-- `io::queue::peek(len)`: ring afterwards (may be re-aligned) and the bytes of the returned span -/
+def xpeek (r : Ring) (n : Nat) : Res (Ring × List Byte) :=
+  let low := r.low
+  let n := if n = 0 then r.len else n
+  if n ≤ low then
+    match Mem.rd r.store r.off low with
+    | .ok out => .ok (r, out)
+    | _ => .oob
+  else if !r.frag then
+    match Mem.rd r.store r.off r.len with
+    | .ok out => .ok (r, out)
+    | _ => .oob
+  else
+    match r.align 0 with
+    | .ok r1 =>
+      match Mem.rd r1.store 0 r1.len with
+      | .ok out => .ok (r1, out)
+      | _ => .oob
+    | .err e => .err e | .null => .null | .oob => .oob | .fault => .fault
+
 end Ring
 end Mpt
